@@ -31,6 +31,15 @@ def run(tier):
         lang = 'en' if it % 3 else 'ja'
         rf.set_lang(lang)
         b = trees.make_batch(rng, lang, awkward=0.5, exclude='\\')
+        if it % 4 == 1:
+            # tokens as read_auto itself makes them (and as a bank leaf with two different tag columns gives): further attributes
+            # tag1 / tag2 next to pos.  The line is written from pos (twice), whatever else a token carries
+            for sent in b:
+                for tr in sent:
+                    for lf in trees.leaves_of(tr):
+                        if rng.random() < 0.5:
+                            lf['tok']['tag1'] = rng.choice(['NN', 'VBZ', lf['tok'].get('pos', 'XX')])
+                            lf['tok']['tag2'] = rng.choice(['NNS', 'DT', lf['tok'].get('pos', 'XX')])
         real = trees.real_batch(b, rng)
         base = {'lang': lang, 'words': [[t['tok']['word'] for t in trees.leaves_of(s[0])] for s in b]}
         # what the AUTO text denotes (independent lexer), then the real reader
